@@ -1,0 +1,99 @@
+//go:build verif
+
+package core
+
+import (
+	"errors"
+
+	"rcproxy/core/pkg/redis"
+)
+
+// Hooks for the verification harness (/verif). They are compiled only with the build tag "verif" and only
+// expose the existing topology refresh step - parse, change detection, publication - to an in-process driver;
+// nothing here is part of the product.
+
+// VerifInfo is what a node answers to INFO in the harness.
+type VerifInfo struct {
+	Loading bool
+	LinkUp  bool
+	Err     bool // the node cannot be reached
+}
+
+type verifWrapper struct {
+	info func(addr string) VerifInfo
+}
+
+type verifConn struct {
+	i VerifInfo
+}
+
+func (w *verifWrapper) Dial(addr, passwd string, _ ...redis.DialOption) (redis.Conn, error) {
+	i := w.info(addr)
+	if i.Err {
+		return nil, errors.New("verif: node unreachable")
+	}
+	return &verifConn{i: i}, nil
+}
+
+func (c *verifConn) Info() (*redis.Info, error) {
+	st := "down"
+	if c.i.LinkUp {
+		st = "up"
+	}
+	return &redis.Info{Version: "7.0.0", Loading: c.i.Loading, MasterLinkStatus: st}, nil
+}
+func (c *verifConn) Do(string, ...interface{}) (interface{}, error) { return nil, nil }
+func (c *verifConn) Send(string, ...interface{}) error                { return nil }
+func (c *verifConn) Flush() error                                     { return nil }
+func (c *verifConn) Receive() (interface{}, error)                    { return nil, nil }
+func (c *verifConn) Close() error                                     { return nil }
+
+// VerifTopology is a topology state of its own that is fed CLUSTER NODES texts.
+type VerifTopology struct {
+	c *ClusterNodes
+}
+
+// VerifSet is one published replica set.
+type VerifSet struct {
+	Master   string
+	Slots    [][2]int32
+	Replicas []string
+}
+
+// NewVerifTopology returns an empty topology state; info answers the INFO queries the refresh step makes.
+func NewVerifTopology(info func(addr string) VerifInfo) *VerifTopology {
+	return &VerifTopology{c: &ClusterNodes{redisWrapper: &verifWrapper{info: info}}}
+}
+
+// Feed hands one CLUSTER NODES text to the refresh step, as the refresh goroutine does with the body of a
+// probe reply. changed tells whether the step published a new topology for the event loop.
+func (v *VerifTopology) Feed(text string) (changed bool, err error) {
+	v.c.serverChanged = false
+	err = v.c.updateClusterNodes(text)
+	return v.c.serverChanged, err
+}
+
+// Sets returns the published replica sets (what the event loop builds its slot table and pools from).
+func (v *VerifTopology) Sets() []VerifSet {
+	var out []VerifSet
+	for _, rs := range v.c.Replicasets {
+		s := VerifSet{Master: rs.Master.Addr}
+		for _, r := range rs.Master.Slots {
+			s.Slots = append(s.Slots, [2]int32{r.Start, r.End})
+		}
+		for _, sl := range rs.Slaves {
+			s.Replicas = append(s.Replicas, sl.Addr)
+		}
+		out = append(out, s)
+	}
+	return out
+}
+
+// Known returns the addresses of the published node table, with the replica flag of each.
+func (v *VerifTopology) Known() map[string]bool {
+	out := map[string]bool{}
+	for kv := range v.c.ServerMap.Iter() {
+		out[kv.Key.(string)] = kv.Value.(*ClusterNode).Role == Slave
+	}
+	return out
+}
